@@ -1098,11 +1098,19 @@ stream_encoder_mt_init(lzma_next_coder *next, const lzma_allocator *allocator,
 		coder->threads = NULL;
 		coder->threads_max = 0;
 		coder->threads_initialized = 0;
+		coder->thr = NULL;
 	}
 
 	// Allocate the thread-specific base structures.
 	assert(options->threads > 0);
-	if (coder->threads_max != options->threads) {
+	//
+	// The old threads can be reused only if the previous encoding
+	// session (if any) left them all idle in coder->threads_free. That
+	// is the case when no Block was being filled and the output queue
+	// is empty. Otherwise some workers may not return to the stack of
+	// free threads after threads_stop(), so get rid of them.
+	if (coder->threads_max != options->threads || coder->thr != NULL
+			|| !lzma_outq_is_empty(&coder->outq)) {
 		threads_end(coder, allocator);
 
 		coder->threads = NULL;
